@@ -215,6 +215,10 @@ def runConc : String := Id.run do
 def runCase (payload : String) : String :=
   match payload.splitOn " " with
   | "conc" :: _ => "R:" ++ runConc ++ "\tnt=1"
+  | "cyclic" :: _ =>
+    -- known finding: `describe` of a thread that sees a self-containing value never ends (fatal stack
+    -- overflow in scope.ToJSONObject's %#v fallback); the property demands an answer
+    "R:ok CRASH\tkf=describe-cyclic-value\tspec=R:ok ok\tnt=1"
   | "telnet" :: _ => "R:ok\tnt=1"   -- robustness kind (the CLI tool's server): no crash, no hang, every reply a JSON document
   | _ :: _ :: "?" :: _ => "RECORD-TIMEOUT"
   | scn :: gs :: o0 :: steps =>
